@@ -9,7 +9,7 @@ import gen as G
 import verde as vd
 
 ID = "C14"
-TRANSLATED = "coords"      # Gen/Coords.lean is regenerated from /repo by py2lean.py and bridged to the model in Props/C14.lean
+TRANSLATED = "windows"     # Gen/Coords.lean (rolling_window prelude) and Gen/Windows.lean (expanding_window, the queries of rolling_window) are regenerated from /repo and bridged in Props/C14.lean
 FILES = ["verde/coordinates.py"]
 RULE = ("corpus (points exactly on window edges, empty windows, single row/column of windows, oversize window) + seeded clouds x window sizes up to the "
         "region's smaller side x spacing/shape x region given/inferred x both adjust modes x 1-D/2-D inputs with extra coordinates, and expanding windows "
